@@ -335,7 +335,7 @@ pub fn stress(puts: u64, seed: u64) -> (StressReport, Option<Failure>) {
     use tinylfu_cached::cache::verif::Instance;
     mark_harness_thread();
     let mut report = StressReport::default();
-    let cfg = Cfg { counters: 1000, capacity: 1024, max_weight: i64::MAX / 4, shards: 2, cmd_buf: 4, pool: 1, buf: 8, tick_us: 1000, hash: HashMode::Identity, weight_mode: WeightMode::Table(vec![1]), start_ns: 0, noise_readers: 0 };
+    let cfg = Cfg { counters: 1000, capacity: 1024, max_weight: i64::MAX / 4, shards: 2, cmd_buf: 4, pool: 1, buf: 8, tick_us: 1000, hash: HashMode::Identity, weight_mode: WeightMode::Table(vec![1]), start_ns: 0, noise_readers: 0, prelude: None };
     let inst = Instance::new();
     let clock = HClock::new(BASE_SECS * 1_000_000_000);
     let cache = crate::seq::build_cache(&cfg, &clock, &inst);
